@@ -111,7 +111,29 @@ def check_matrix(np, sparse, ce, pp, layout, lg):
 
 def onehot_cases(np, sparse, ce, pp):
     from pero_ocr.core.layout import TextLine
+    from specs.ctc import collapse
     bad = []
+    # one-hot posteriors along EVERY path over {a, b, c, blank} of 2..5 frames that spells at least one character (characters
+    # held for several frames, repeats split by a blank, leading / trailing blanks, ...): every character confidence is 1
+    for T in (2, 3, 4, 5):
+        for path in itertools.product(range(4), repeat=T):
+            labels = collapse(path, 3)
+            if not labels or len(labels) == T:
+                continue
+            m = np.full((T, 4), -80.0)
+            for t, c in enumerate(path):
+                m[t, c] = 40.0
+            ln = TextLine(id='l', logits=sparse.csc_matrix(m), characters=['a', 'b', 'c', '~'])
+            try:
+                cf = ce.get_line_confidence(ln, np.asarray(labels))
+            except Exception as e:
+                bad.append(('no-exception', 'get_line_confidence on one-hot path %r raised %r' % (path, e)))
+                break
+            if np.abs(cf - 1).max() > 1e-9:
+                bad.append(('one-hot-is-one', 'get_line_confidence on one-hot posteriors along path %r (labels %r): %r' % (list(path), labels, cf.tolist())))
+                break
+        if bad:
+            break
     a = np.full((4, 4), -80.0)
     path = [0, 3, 1, 3]
     for t, c in enumerate(path):
